@@ -45,6 +45,26 @@ KEYIDS = ["m", "m/", "m/44'/0'/0'/0", "m/44'/0'/0'/0/0/0", "m/44'/0'/0'/0/0'", "
           "44'/0'/0'/0/0", "m/44'/0'/0'/0/0\n", "m/4 4'/0'/0'/0/0", "m/+44'/0'/0'/0/0"]
 
 
+def string_variants(leaf):
+    """same length (or nearly), one or two characters exchanged for look-alikes"""
+    mid = (len(leaf) // 2) & ~1
+    out = []
+    for lab, ch in [("fullwidth-digit", "\uff11"), ("arabic-indic-digit", "\u0663"),
+                    ("superscript-two", "\u00b2"), ("fullwidth-a", "\uff41"),
+                    ("nul", "\x00"), ("lone-surrogate", "\ud800"), ("astral", "\U0001d7d9"),
+                    ("nbsp", "\u00a0"), ("underscore", "_"), ("plus", "+"), ("minus", "-")]:
+        out.append((lab + "-first", ch + leaf[1:]))
+        out.append((lab + "-mid", leaf[:mid] + ch + leaf[mid + 1:]))
+        out.append((lab + "-last", leaf[:-1] + ch))
+    out.append(("inner-blanks", leaf[:2] + " " + leaf[2:mid] + "\t" + leaf[mid:]))
+    out.append(("inner-newline", leaf[:mid] + "\n" + leaf[mid:]))
+    out.append(("trailing-newline", leaf + "\n"))
+    out.append(("0X-prefix", "0X" + leaf))
+    out.append(("upper", leaf.upper()))
+    out.append(("two-fullwidth", "\uff11\uff12" + leaf[2:]))
+    return out
+
+
 def kind_of(v):
     if v == ABSENT:
         return "absent"
@@ -305,6 +325,21 @@ def gen_requests(spec):
                             yield v1, name, "pair:%s=%s,%s=%s" % (
                                 ".".join(map(str, p1)), kind_of(v1_),
                                 ".".join(map(str, p2)), kind_of(v2_)), r
+        # string leaves: characters that other notions of "digit" / "hex" / "blank" admit
+        for name, base in b.items():
+            for p in field_paths(base):
+                leaf = base
+                for q in p:
+                    leaf = leaf[q]
+                if not isinstance(leaf, str) or len(leaf) < 2 or p == ("command",):
+                    continue
+                for lab, val in string_variants(leaf):
+                    k += 1
+                    if k % n != sh:
+                        continue
+                    r = copy.deepcopy(base)
+                    set_path(r, p, val)
+                    yield v1, name, "str:%s:%s" % (".".join(map(str, p)), lab), r
         for base, label, r in structural(rng, b, v1):
             k += 1
             if k % n == sh:
@@ -350,6 +385,12 @@ def make_device(rng):
     return dev
 
 
+def fl_cmd_apdu(e):
+    """an APDU that belongs to a command (not to the bring-up after a reconnection)"""
+    a = e.get("apdu") or b""
+    return len(a) > 1 and a[1] not in (0x06, 0x43, 0x11)
+
+
 def check_one(acc, st, v1, name, label, req):
     from ..stack import Stack
     key = v1
@@ -366,10 +407,26 @@ def check_one(acc, st, v1, name, label, req):
     except (TypeError, ValueError):
         return
     acc.evaluations += 1
+    if st.get("pending_mode") and acc.evaluations % st["pending_mode"] == 0 and \
+            not s.protocol.__dict__.get("_comm_issue", False):
+        # leave a link repair pending (a read error on a getPubKey): the requests that
+        # follow are judged on a manager that would like to reconnect - a refused one
+        # must still not touch the transport in any way (no close / re-open / bring-up)
+        from ..simdev.transport import Fault
+        s.bus.arm({0: Fault("read_error")})
+        s.request({"command": "getPubKey", "version": 1 if v1 else 5,
+                   "keyId": "m/44'/0'/0'/0/0"})
+        s.bus.arm({})
+        del s.bus.events[:]
+        acc.count("link_repairs_left_pending")
+    repair_pending = bool(s.protocol.__dict__.get("_comm_issue", False))
+    if repair_pending:
+        acc.count("judged_with_repair_pending")
     v = dp.classify(req, v1, tx_decodable, block_ok)
     mark = len(s.bus.events)
     out, exc = s.handle_line(line)
-    apdus = [e for e in s.bus.apdus(mark) if e["apdu"]]
+    # any transport activity counts as contact (APDUs, but also close / enumerate / open)
+    apdus = [e for e in s.bus.events[mark:] if e["ev"] != "apdu" or e["apdu"]]
     del s.bus.events[:]
     del dev.sign_records[:]
     del dev.adv_records[:]
@@ -403,6 +460,9 @@ def check_one(acc, st, v1, name, label, req):
         acc.count("accepted")
         if dp.ACCEPT not in allowed:
             firm = [w for w in v.why if not w.startswith("?")]
+            if repair_pending and not any(e["ev"] == "apdu" and fl_cmd_apdu(e) for e in apdus):
+                return bad("device-contacted-before-refusal:repair-pending:%s:%s" % (
+                    cmdname, (firm[0] if firm else "?").replace(" ", "-")))
             return bad("device-contacted-before-refusal:%s:%s" % (
                 cmdname, (firm[0] if firm else "?").replace(" ", "-")))
         if label == "valid" and code != 0:
@@ -426,11 +486,14 @@ def check_one(acc, st, v1, name, label, req):
 
 def run_shard(spec, acc):
     env.setup()
-    st = {}
+    st = {"pending_mode": 7}
     for v1, name, label, req in gen_requests(spec):
         check_one(acc, st, v1, name, label, req)
-    for (s, dev) in st.values():
-        s.__exit__(None, None, None)
+    for k, v in st.items():
+        if k != "pending_mode":
+            v[0].__exit__(None, None, None)
+    if acc.counters.get("judged_with_repair_pending", 0) == 0:
+        acc.notes.append("no request was judged with a repair pending in this shard")
 
 
 def replay(case, acc):
